@@ -115,8 +115,12 @@ class Sample:
         self.nontrivial = nontrivial
 
     def replay(self):
-        return {"function": self.fn, "kind": self.kind, "inputs_hex": self.inputs, "outputs_hex": self.outputs,
-                "goals": [a.stmt for a in (self.atoms or [])]}
+        out = {"function": self.fn, "kind": self.kind, "inputs_hex": self.inputs, "outputs_hex": self.outputs,
+               "goals": [a.stmt for a in (self.atoms or [])]}
+        rep = getattr(self, "rep", None)
+        if rep is not None:      # the call was made with the inputs in this representation (ReprCase)
+            out["representation_case"] = dict(rep.replay(), row=getattr(self, "row", 0), differs=rep.diff)
+        return out
 
 
 def plain_atom(expr, y, b, unfold=""):
@@ -225,8 +229,9 @@ def finite(*xs):
     return all(math.isfinite(x) for x in xs)
 
 
-def mk_to3d(ra, dec, kind):
-    x, y, z = run_to3d(ra, dec)
+def mk_to3d(ra, dec, kind, out=None):
+    """out: an observed result (x, y, z) of a call made elsewhere (input representations); None = call now"""
+    x, y, z = run_to3d(ra, dec) if out is None else out
     inputs, outputs = dict(ra=hexf(ra), dec=hexf(dec)), dict(x=hexf(x), y=hexf(y), z=hexf(z))
     if not finite(x, y, z):
         return Sample("AngularCoordinates.to_3d", kind, inputs, outputs, None)
@@ -241,8 +246,8 @@ def mk_to3d(ra, dec, kind):
     return s
 
 
-def mk_chord(d, kind):
-    c = run_chord(d)
+def mk_chord(d, kind, out=None):
+    c = run_chord(d) if out is None else out
     inputs, outputs = dict(d=hexf(d)), dict(chord=hexf(c))
     if not finite(c):
         return Sample("AngularDistances.to_3d", kind, inputs, outputs, None)
@@ -250,9 +255,9 @@ def mk_chord(d, kind):
                   [plain_atom("chord %s" % R(d), c, 4 * U * abs(F(c)) + TINY, unfold="chord")])
 
 
-def mk_angle(c, kind):
+def mk_angle(c, kind, out=None):
     try:
-        a = run_angle(c)
+        a = run_angle(c) if out is None else out
     except ValueError as exc:
         raise Raised("AngularDistances.from_3d(%r) raised %s" % (c, exc))
     inputs, outputs = dict(chord=hexf(c)), dict(angle=hexf(a))
@@ -266,10 +271,10 @@ def dist_bound(t):
     return 2.0 ** -50 * t + cond(2.0 ** -50, math.cos(t / 2))
 
 
-def mk_distance(p, q, kind):
+def mk_distance(p, q, kind, out=None):
     inputs = dict(ra1=hexf(p[0]), dec1=hexf(p[1]), ra2=hexf(q[0]), dec2=hexf(q[1]))
     try:
-        t = run_distance(p, q)
+        t = run_distance(p, q) if out is None else out
     except ValueError as exc:
         s = Sample("AngularCoordinates.distance", kind, inputs, dict(raised=str(exc)), None)
         s.raised = str(exc)
@@ -285,9 +290,9 @@ def from3d_bounds(ra, dec):
     return (2.0 ** -50 + cond(2.0 ** -51, math.sin(ra)), 2.0 ** -51 + cond(2.0 ** -51, math.cos(dec)))
 
 
-def mk_from3d(v, kind):
+def mk_from3d(v, kind, out=None):
     v = [float(t) for t in v]
-    ra, dec = run_from3d(v)
+    ra, dec = run_from3d(v) if out is None else out
     inputs, outputs = dict(x=hexf(v[0]), y=hexf(v[1]), z=hexf(v[2])), dict(ra=hexf(ra), dec=hexf(dec))
     fn = "AngularCoordinates.from_3d"
     if not finite(ra, dec) or abs(dec) > HALF_PI_F:
@@ -305,11 +310,11 @@ def mk_from3d(v, kind):
     return Sample(fn, kind, inputs, outputs, [ra_atom(lit, ra, e_ra), dec_atom(lit, dec, e_dec)])
 
 
-def mk_mean(pts, ws, kind):
+def mk_mean(pts, ws, kind, out=None):
     n = len(pts)
     inputs = dict(points=[[hexf(a), hexf(b)] for a, b in pts], weights=None if ws is None else [hexf(w) for w in ws])
     fn = "AngularCoordinates.mean"
-    ra, dec = run_mean(pts, ws)
+    ra, dec = run_mean(pts, ws) if out is None else out
     outputs = dict(ra=hexf(ra), dec=hexf(dec))
     if not finite(ra, dec) or abs(dec) > HALF_PI_F:
         return Sample(fn, kind, inputs, outputs, None)
@@ -587,27 +592,30 @@ def build_samples(ctx, jobs):
 def judge(ctx, samples, verdict):
     undecided = []
     for i, s in enumerate(samples):
-        key = (s.fn, tuple(sorted((k, str(v)) for k, v in s.inputs.items())))
+        rc = getattr(s, "rep", None)
+        # inputs handed over in another representation: own signature class, case = the representation case
+        sigx, case, how = ("/input-" + rc.cls, rc.case, " (input as %s)" % rc.describe()) if rc is not None else ("", i, "")
+        key = (s.fn, tuple(sorted((k, str(v)) for k, v in s.inputs.items())), None if rc is None else rc.key())
         ctx.count(key=key, nontrivial=s.nontrivial, kind="%s/%s" % (SIG[s.fn], s.kind))
         if getattr(s, "raised", None):
             ctx.fail("c14-distance-raises-near-antipodal",
                      "AngularCoordinates.distance raised ValueError(%s) for a valid pair of sky positions" % s.raised,
-                     s.replay(), case=i)
+                     s.replay(), case=case)
             continue
         if s.atoms is None:
-            ctx.fail("c14-nonfinite:%s" % SIG[s.fn], "%s returned a non-finite or out-of-range value: %s" % (s.fn, s.outputs),
-                     s.replay(), case=i)
+            ctx.fail("c14-nonfinite:%s%s" % (SIG[s.fn], sigx), "%s returned a non-finite or out-of-range value: %s%s"
+                     % (s.fn, s.outputs, how), s.replay(), case=case)
             continue
         if getattr(s, "pole_ra_ok", True) is False:
-            ctx.fail("c14-accuracy:from_3d", "from_3d at an exact pole returned RA %s, the model (and the documented fallback) gives 0"
-                     % s.outputs["ra"], s.replay(), case=i)
+            ctx.fail("c14-accuracy:from_3d%s" % sigx, "from_3d at an exact pole returned RA %s, the model (and the documented fallback) gives 0%s"
+                     % (s.outputs["ra"], how), s.replay(), case=case)
         if not s.atoms:
             ctx.bump("degenerate_mean_skipped")
             continue
         v, detail = verdict.get(i, ("undecided", "not run"))
         if v == "refuted":
-            ctx.fail("c14-accuracy:%s" % SIG[s.fn], "%s is outside its float bound on %s -> %s (%s)"
-                     % (s.fn, s.inputs, s.outputs, detail), s.replay(), case=i)
+            ctx.fail("c14-accuracy:%s%s" % (SIG[s.fn], sigx), "%s is outside its float bound on %s -> %s%s (%s)"
+                     % (s.fn, s.inputs, s.outputs, how, detail), s.replay(), case=case)
         elif v == "undecided":
             undecided.append({"sample": s.replay(), "detail": detail})
             ctx.bump("undecided")
@@ -822,6 +830,457 @@ def value_checks(ctx):
                      case=("value", rnd))
 
 
+# ----------------------------------------------------------------------------- input representations
+# The property is about positions and distances, not about how the caller stores them: AngularCoordinates /
+# AngularDistances and the from_3d constructors take any array-like.  Whatever dtype, byte order, memory layout or
+# python container carries the values, the result must be the float64 array that the same values give when they
+# are handed over as a contiguous native float64 array (bit for bit), and hence lie inside the float64 bounds
+# above.  Model: Model/Sphere.v (in_format, c14_repr_case); theorems: Props/C14.v (C14_b16_in_b32, C14_b32_in_b64,
+# C14_int_in_b64: promotion is the identity on values; C14_narrowing_refuted: the converse is not).
+DTYPES = {   # token -> (numpy dtype, value grid, class of the representation)
+    "f8": ("<f8", "f8", "native"), ">f8": (">f8", "f8", "byteorder"),
+    "f4": ("<f4", "f4", "narrow-float"), ">f4": (">f4", "f4", "narrow-float"),
+    "f2": ("<f2", "f2", "narrow-float"), ">f2": (">f2", "f2", "narrow-float"),
+    "g": ("g", "f8", "wide-float"),
+    "i8": ("<i8", "int", "integer"), "i4": ("<i4", "int", "integer"), ">i4": (">i4", "int", "integer"),
+    "i2": ("<i2", "int", "integer"), "u1": ("u1", "uint", "integer"), "b1": ("?", "bool", "integer"),
+    "py": (None, "f8", "native"), "pyint": (None, "int", "integer"),   # python float / int elements of a sequence
+}
+GRID_FORMAT = {"f8": (53, 1074, 1024), "f4": (24, 149, 128), "f2": (11, 24, 16), "int": (63, 0, 63), "uint": (8, 0, 8),
+               "bool": (1, 0, 1)}
+LAYOUTS = ["c", "strided", "colslice", "fortran", "negstride", "readonly", "unaligned"]
+SEQUENCES = ["list", "tuple", "list-of-tuples", "list-of-arrays"]
+SINGLE_2D = ["flat-list", "flat-tuple", "flat-array"]       # one point given as a 1-d object
+SINGLE_1D = ["scalar", "0d"]                                # one distance given as a scalar / 0-d array
+
+
+def rep_class(rep):
+    cont, dt, lay = rep
+    cls = DTYPES[dt][2]
+    if cls != "native":
+        return cls
+    if cont in ("ndarray", "flat-array") and lay != "c":
+        return "layout"
+    if cont == "pandas":
+        return "pandas"
+    if cont in SINGLE_1D or cont in SINGLE_2D:
+        return "single"
+    return "sequence"
+
+
+def snap(x, grid, lo, hi):
+    """the value of the grid (float16 / float32 / integer / ...) next to x that lies in [lo, hi], as a python float"""
+    if grid == "f8":
+        return float(min(max(x, lo), hi))
+    if grid in ("f4", "f2"):
+        t = np.dtype(grid).type
+        y = t(min(max(x, lo), hi))      # rounding may step over the bound by one grid point
+        while float(y) > hi:
+            y = np.nextafter(y, t(-np.inf))
+        while float(y) < lo:
+            y = np.nextafter(y, t(np.inf))
+        return float(y)
+    if grid == "bool":
+        lo, hi = max(lo, 0.0), min(hi, 1.0)
+    if grid == "uint":
+        lo = max(lo, 0.0)
+    return float(int(min(max(round(x), math.ceil(lo)), math.floor(hi))))     # int(): never -0.0
+
+
+def elem(dt, v):
+    if dt == "py":
+        return float(v)
+    if dt == "pyint":
+        return int(v)
+    return np.dtype(DTYPES[dt][0]).type(v)
+
+
+def relayout(arr, lay):
+    """the same values in another memory layout (views into larger buffers, other strides, flags)"""
+    n = arr.shape[0]
+    junk = 1
+    if lay == "c":
+        return np.ascontiguousarray(arr)
+    if lay == "strided":
+        big = np.full((2 * n + 1,) + arr.shape[1:], junk, dtype=arr.dtype)
+        big[1::2] = arr
+        return big[1::2]
+    if lay == "colslice":
+        if arr.ndim == 1:
+            wide = np.full((n, 3), junk, dtype=arr.dtype)
+            wide[:, 1] = arr
+            return wide[:, 1]
+        wide = np.full((n, arr.shape[1] + 3), junk, dtype=arr.dtype)
+        wide[:, 2:2 + arr.shape[1]] = arr
+        return wide[:, 2:2 + arr.shape[1]]
+    if lay == "fortran":
+        if arr.ndim == 1:
+            return relayout(arr, "strided")
+        return np.asfortranarray(arr)
+    if lay == "negstride":
+        return np.ascontiguousarray(arr[::-1])[::-1]
+    if lay == "readonly":
+        out = np.ascontiguousarray(arr).copy()
+        out.flags.writeable = False
+        return out
+    if lay == "unaligned":
+        buf = np.zeros(arr.nbytes + 1, dtype="u1")
+        out = buf[1:].view(arr.dtype).reshape(arr.shape)
+        out[...] = arr
+        return out
+    raise KeyError(lay)
+
+
+def build(rep, rows):
+    """rows: N lists of python floats (2-d data) or N python floats (1-d data), every value on the grid of the
+    representation's dtype.  Returns the object that is handed to the implementation."""
+    cont, dt, lay = rep
+    two_d = isinstance(rows[0], (list, tuple))
+    if cont in ("ndarray", "flat-array", "0d", "pandas"):
+        base = np.array(rows, dtype="f8")
+        arr = base.astype(DTYPES[dt][0])
+        assert arr.astype("f8").tobytes() == base.tobytes(), ("generator: value not on the grid of", dt, rows)
+        if cont == "ndarray":
+            return relayout(arr, lay)
+        if cont == "flat-array":
+            return relayout(arr[0], lay)
+        if cont == "0d":
+            return arr.reshape(())
+        import pandas as pd
+        return pd.DataFrame(arr, columns=["c%d" % i for i in range(arr.shape[1])]) if two_d else pd.Series(arr)
+    conv = lambda v: elem(dt, v)      # noqa: E731
+    if cont == "list":
+        return [[conv(v) for v in r] for r in rows] if two_d else [conv(v) for v in rows]
+    if cont == "tuple":
+        return tuple(tuple(conv(v) for v in r) for r in rows) if two_d else tuple(conv(v) for v in rows)
+    if cont == "list-of-tuples":
+        return [tuple(conv(v) for v in r) for r in rows] if two_d else [conv(v) for v in rows]
+    if cont == "list-of-arrays":
+        nd = DTYPES[dt][0] or "<f8"
+        return [np.array(r, dtype="f8").astype(nd) for r in rows]
+    if cont == "flat-list":
+        return [conv(v) for v in rows[0]]
+    if cont == "flat-tuple":
+        return tuple(conv(v) for v in rows[0])
+    if cont == "scalar":
+        return conv(rows[0])
+    raise KeyError(cont)
+
+
+def canonical(rows):
+    return np.ascontiguousarray(np.array(rows, dtype="<f8"))
+
+
+def covering_reps(two_d):
+    """every dtype, every layout, every container at least once (the same list for every seed)"""
+    reps = [("ndarray", dt, "c") for dt in ("f4", "f2", ">f8", ">f4", ">f2", "g", "i8", "i4", ">i4", "i2", "u1", "b1")]
+    reps += [("ndarray", dt, lay) for dt in ("f8", "f4", ">f8", "i4") for lay in LAYOUTS[1:]]
+    reps += [(c, dt, "c") for c in SEQUENCES for dt in ("py", "pyint", "f8", "f4", "f2")
+             if not (c == "list-of-arrays" and dt in ("py", "pyint"))]
+    reps += [("pandas", dt, "c") for dt in ("f8", "f4", "i8")]
+    if two_d:
+        reps += [(c, dt, "c") for c in SINGLE_2D[:2] for dt in ("py", "pyint", "f4")]
+        reps += [("flat-array", dt, lay) for dt, lay in (("f8", "c"), ("f4", "c"), ("f2", "c"), (">f8", "c"), ("i4", "c"),
+                                                        ("f8", "strided"), ("f4", "strided"))]
+    else:
+        reps += [("scalar", dt, "c") for dt in ("py", "pyint", "f8", "f4", "f2", "i4")]
+        reps += [("0d", dt, "c") for dt in ("f8", "f4", ">f8", "i8")]
+    return reps
+
+
+def single_only(rep):
+    return rep[0] in SINGLE_1D or rep[0] in SINGLE_2D
+
+
+REPR_FN = {"to_3d": "AngularCoordinates.to_3d", "from_3d": "AngularCoordinates.from_3d",
+           "distance": "AngularCoordinates.distance", "mean": "AngularCoordinates.mean",
+           "chord": "AngularDistances.to_3d", "angle": "AngularDistances.from_3d"}
+
+
+def grid_point(rng, grid, region):
+    if region == "pole":
+        ra, dec = rng.uniform(0, TWO_PI_F), rng.choice([1.0, -1.0]) * (HALF_PI_F - rng.choice([0.0, log_uniform(rng, -7, -1)]))
+    elif region == "wrap":
+        ra, dec = rng.choice([0.0, TWO_PI_F, TWO_PI_F - log_uniform(rng, -7, -2), log_uniform(rng, -7, -2)]), rng.uniform(-1, 1)
+    else:
+        ra, dec = sphere_point(rng)
+    return [snap(ra, grid, 0.0, TWO_PI_F), snap(dec, grid, -HALF_PI_F, HALF_PI_F)]
+
+
+def grid_values(rng, fn, grid, n):
+    """valid inputs of `fn` on a value grid: dict slot -> rows"""
+    region = rng.choice(["any", "any", "pole", "wrap"])
+    if fn == "to_3d":
+        return {"a": [grid_point(rng, grid, region) for _ in range(n)]}
+    if fn == "mean":
+        c = grid_point(rng, grid, "any")
+        s = log_uniform(rng, -3, -0.5)
+        return {"a": [[snap(c[0] + s * rng.uniform(-1, 1), grid, 0.0, TWO_PI_F),
+                       snap(c[1] + s * rng.uniform(-1, 1), grid, -HALF_PI_F, HALF_PI_F)] for _ in range(n)]}
+    if fn == "distance":
+        a = [grid_point(rng, grid, region) for _ in range(n)]
+        b = []
+        for p in a:
+            mode = rng.choice(["any", "small", "small", "antipodal"])
+            if mode == "any":
+                b.append(grid_point(rng, grid, "any"))
+            elif mode == "small":
+                s = log_uniform(rng, -6, -1)
+                b.append([snap(p[0] + s * rng.uniform(-1, 1), grid, 0.0, TWO_PI_F),
+                          snap(p[1] + s * rng.uniform(-1, 1), grid, -HALF_PI_F, HALF_PI_F)])
+            else:
+                s = log_uniform(rng, -6, -1)
+                b.append([snap((p[0] + math.pi + s * rng.uniform(-1, 1)) % TWO_PI_F, grid, 0.0, TWO_PI_F),
+                          snap(-p[1] + s * rng.uniform(-1, 1), grid, -HALF_PI_F, HALF_PI_F)])
+        return {"a": a, "b": b}
+    if fn == "from_3d":
+        rows = []
+        for _ in range(n):
+            while True:
+                if grid in ("int", "uint", "bool"):
+                    v = [snap(rng.randint(-4, 4), grid, -4, 4) for _ in range(3)]
+                else:
+                    sc = log_uniform(rng, -1, 1)
+                    v = [snap(t * sc, grid, -100.0, 100.0) for t in run_to3d(*grid_point(rng, "f8", region))]
+                if v[0] * v[0] + v[1] * v[1] + v[2] * v[2] > 0.0:
+                    rows.append(v)
+                    break
+        return {"a": rows}
+    if fn == "chord":
+        pick = lambda: rng.choice([rng.uniform(0.0, math.pi), log_uniform(rng, -7, 0), math.pi - log_uniform(rng, -7, 0)])  # noqa: E731
+        return {"a": [snap(pick(), grid, 0.0, math.pi) for _ in range(n)]}
+    if fn == "angle":
+        pick = lambda: rng.choice([rng.uniform(0.0, 2.0), log_uniform(rng, -7, 0), 2.0 - log_uniform(rng, -7, 0)])  # noqa: E731
+        return {"a": [snap(pick(), grid, 0.0, 2.0) for _ in range(n)]}
+    raise KeyError(fn)
+
+
+class ReprCase:
+    """one call of a primitive with its inputs in some representation, next to the same call on contiguous
+    native float64 arrays of the same values"""
+
+    def __init__(self, fn, reps, rows, kind):
+        self.fn, self.reps, self.rows, self.kind = fn, reps, rows, kind
+        self.cls = self.klass()
+        self.got = self.want = self.held = None
+        self.refused = None
+        self.diff = []          # what differs from the float64 path
+
+    def klass(self):
+        order = ["narrow-float", "integer", "wide-float", "byteorder", "layout", "pandas", "single", "sequence", "native"]
+        return min((rep_class(r) for r in self.reps.values() if r is not None), key=order.index)
+
+    def key(self):
+        return ("repr", self.fn, tuple(sorted((k, v) for k, v in self.reps.items() if v is not None)),
+                tuple(sorted((k, str([hexf(t) for t in np.ravel(v)])) for k, v in self.rows.items() if v is not None)))
+
+    def describe(self):
+        return {k: "%s/%s/%s" % v for k, v in self.reps.items() if v is not None}
+
+    def replay(self):
+        return {"function": REPR_FN[self.fn], "repr_fn": self.fn, "kind": self.kind,
+                "representation": {k: list(v) for k, v in self.reps.items() if v is not None},
+                "rows_hex": {k: [[hexf(t) for t in r] if isinstance(r, (list, tuple)) else hexf(r) for r in v]
+                             for k, v in self.rows.items() if v is not None}}
+
+    @staticmethod
+    def call(fn, objs):
+        AC, AD = impl.AngularCoordinates, impl.AngularDistances
+        if fn == "to_3d":
+            o = AC(objs["a"])
+            return o.data, o.to_3d()
+        if fn == "from_3d":
+            return None, AC.from_3d(objs["a"]).data
+        if fn == "distance":
+            o = AC(objs["a"])
+            return o.data, o.distance(AC(objs["b"])).data
+        if fn == "mean":
+            o = AC(objs["a"])
+            return o.data, o.mean(objs.get("w")).data
+        if fn == "chord":
+            o = AD(objs["a"])
+            return o.data, o.to_3d()
+        if fn == "angle":
+            return None, AD.from_3d(objs["a"]).data
+        raise KeyError(fn)
+
+    def run(self):
+        canon = {k: (None if v is None else canonical(v)) for k, v in self.rows.items()}
+        _, self.want = self.call(self.fn, canon)
+        objs = {k: (None if self.rows[k] is None else build(self.reps[k], self.rows[k])) for k in self.rows}
+        try:
+            self.held, self.got = self.call(self.fn, objs)
+        except Exception as exc:       # a refusal of a representation is not a failure of the property
+            self.refused = "%s: %s" % (type(exc).__name__, exc)
+            return
+        got, want = self.got, self.want
+        if not isinstance(got, np.ndarray):
+            self.diff.append("result is a %s, not an array" % type(got).__name__)
+            return
+        if got.dtype != NATIVE_F8 or not got.dtype.isnative:
+            self.diff.append("result dtype %s instead of float64" % got.dtype)
+        if got.shape != want.shape:
+            self.diff.append("result shape %s instead of %s" % (got.shape, want.shape))
+        elif np.asarray(got, dtype="f8").tobytes() != want.tobytes():
+            g, w = np.asarray(got, dtype="f8").ravel(), want.ravel()
+            j = [i for i in range(len(w)) if hexf(g[i]) != hexf(w[i])][0]
+            self.diff.append("values differ from the float64 path, first at flat index %d: %s instead of %s"
+                             % (j, hexf(g[j]), hexf(w[j])))
+        if self.held is not None and (not isinstance(self.held, np.ndarray) or self.held.dtype != NATIVE_F8):
+            self.diff.append("container holds %s instead of float64" % getattr(self.held, "dtype", type(self.held).__name__))
+
+    def differing_rows(self):
+        got, want = self.got, self.want
+        if not isinstance(got, np.ndarray) or got.shape != want.shape:
+            return []
+        g = np.asarray(got, dtype="f8").reshape(want.shape[0], -1)
+        w = want.reshape(want.shape[0], -1)
+        return [r for r in range(w.shape[0]) if g[r].tobytes() != w[r].tobytes()]
+
+    def sample(self, r):
+        """the accuracy goal of row r of the observed result (None when the result has no such row)"""
+        got = self.got
+        kind = "repr:%s/%s" % (self.cls, self.kind)
+        try:
+            if self.fn == "to_3d":
+                s = mk_to3d(self.rows["a"][r][0], self.rows["a"][r][1], kind, out=[float(t) for t in got[r]])
+            elif self.fn == "from_3d":
+                s = mk_from3d(self.rows["a"][r], kind, out=(float(got[r, 0]), float(got[r, 1])))
+            elif self.fn == "distance":
+                s = mk_distance(tuple(self.rows["a"][r]), tuple(self.rows["b"][r]), kind, out=float(got[r]))
+            elif self.fn == "mean":
+                s = mk_mean([tuple(p) for p in self.rows["a"]], self.rows.get("w"), kind, out=(float(got[0, 0]), float(got[0, 1])))
+            elif self.fn == "chord":
+                s = mk_chord(self.rows["a"][r], kind, out=float(got[r]))
+            else:
+                s = mk_angle(self.rows["a"][r], kind, out=float(got[r]))
+        except (IndexError, TypeError, ValueError):
+            return None
+        s.rep = self
+        s.row = r
+        return s
+
+
+NATIVE_F8 = np.dtype("f8")
+
+# deterministic probes: single-precision input to every primitive (values are float32 / float16 numbers)
+F4 = lambda x: float(np.float32(x))     # noqa: E731
+F2 = lambda x: float(np.float16(x))     # noqa: E731
+REPR_PROBES = [
+    ("to_3d", {"a": ("ndarray", "f4", "c")}, {"a": [[F4(2.3), F4(-0.7)]]}),
+    ("to_3d", {"a": ("ndarray", "f2", "c")}, {"a": [[F2(2.3), F2(-0.7)]]}),
+    ("distance", {"a": ("ndarray", "f4", "c"), "b": ("ndarray", "f4", "c")},
+     {"a": [[F4(2.3), F4(-0.7)]], "b": [[F4(2.3), F4(F4(-0.7) + 1e-4)]]}),
+    ("distance", {"a": ("ndarray", "f8", "c"), "b": ("ndarray", "f4", "strided")},
+     {"a": [[2.3, -0.7]], "b": [[F4(2.3), F4(-0.7)]]}),
+    ("chord", {"a": ("ndarray", "f4", "c")}, {"a": [F4(0.7)]}),
+    ("chord", {"a": ("scalar", "f2", "c")}, {"a": [F2(0.7)]}),
+    ("mean", {"a": ("ndarray", "f4", "c"), "w": None},
+     {"a": [[F4(3.0), F4(0.7)], [F4(3.001), F4(0.7005)], [F4(2.9995), F4(0.6991)]], "w": None}),
+    ("mean", {"a": ("list", "f4", "c"), "w": ("ndarray", "f4", "c")},
+     {"a": [[F4(0.01), F4(0.2)], [F4(6.28), F4(0.21)]], "w": [F4(0.3), F4(1.7)]}),
+    ("from_3d", {"a": ("ndarray", "f4", "c")}, {"a": [[F4(0.6), F4(-0.48), F4(0.64)]]}),
+    ("from_3d", {"a": ("ndarray", "f2", "c")}, {"a": [[F2(0.6), F2(-0.48), F2(0.64)]]}),
+    ("from_3d", {"a": ("flat-list", "pyint", "c")}, {"a": [[3.0, -4.0, 1.0]]}),
+    ("angle", {"a": ("ndarray", "f4", "c")}, {"a": [F4(0.7)]}),
+    ("angle", {"a": ("scalar", "f4", "c")}, {"a": [F4(0.7)]}),
+    ("angle", {"a": ("list", "py", "c")}, {"a": [0.7, 1.9]}),
+]
+
+
+def repr_cases(ctx):
+    rng = ctx.rng
+    cases = [ReprCase(fn, reps, rows, "probe") for fn, reps, rows in REPR_PROBES]
+    for rnd in range(ctx.n(1, 4)):
+        for fn in ("to_3d", "from_3d", "distance", "mean", "chord", "angle"):
+            two_d = fn not in ("chord", "angle")
+            cover = covering_reps(two_d)
+            for rep in cover:
+                n = 1 if single_only(rep) else rng.choice([1, 2, 3, 5])
+                if fn == "mean" and not single_only(rep):
+                    n = rng.choice([2, 3, 4])
+                grid = DTYPES[rep[1]][1]
+                rows = grid_values(rng, fn, grid, n)
+                reps = {"a": rep}
+                if fn == "distance":
+                    # the other operand in its own representation, on its own grid
+                    other = rng.choice([rep, rep] + [r for r in cover if single_only(r) == single_only(rep)])
+                    og = DTYPES[other[1]][1]
+                    if og != grid:
+                        lim = [(0.0, TWO_PI_F), (-HALF_PI_F, HALF_PI_F)]
+                        rows["b"] = [[snap(v, og, *lim[i]) for i, v in enumerate(p)] for p in rows["b"]]
+                    reps["b"] = other
+                if fn == "mean":
+                    wrep = rng.choice([None, None] + [r for r in covering_reps(False) if not single_only(r)])
+                    reps["w"] = wrep
+                    rows["w"] = None
+                    if wrep is not None:
+                        wg = DTYPES[wrep[1]][1]
+                        rows["w"] = [1.0] * n if wg == "bool" else [snap(rng.choice([0.25, 0.5, 1.0, 2.0, 3.0, rng.uniform(0.1, 5.0)]), wg, 1.0 if wg in ("int", "uint") else 0.0625, 5.0) for _ in range(n)]
+                cases.append(ReprCase(fn, reps, rows, "cover"))
+    return cases
+
+
+def repr_checks(ctx):
+    """runs the representation cases; returns the Samples (accuracy goals on observed rows) that judge() decides"""
+    rng = ctx.rng
+    cases = repr_cases(ctx)
+    samples, terms, tinfo, refused = [], [], [], []
+    per_class_goal = {}
+    budget = ctx.n(1, 4)
+    for idx, c in enumerate(cases):
+        c.case = ("repr", idx)
+        c.run()
+        ctx.count(key=c.key(), nontrivial=True, kind="repr/%s/%s" % (c.fn, c.cls))
+        if c.refused:
+            ctx.bump("repr_refused/%s" % c.fn)
+            refused.append(dict(c.replay(), refused=c.refused))
+            continue
+        rows = []
+        if c.diff:
+            ctx.disagree("c14-repr:%s" % c.fn, c.case, {"representation": c.describe(), "differs": c.diff, "replay": c.replay()})
+            rows = c.differing_rows()[:2] or [0]
+        k = (c.fn, c.cls)
+        if c.kind == "probe" or per_class_goal.get(k, 0) < budget:
+            per_class_goal[k] = per_class_goal.get(k, 0) + (c.kind != "probe")
+            nrow = 1 if c.fn == "mean" else len(c.rows["a"])
+            r = rng.randrange(nrow)
+            if r not in rows:
+                rows.append(r)
+        if c.fn == "mean":
+            rows = rows[:1]
+        for r in rows:
+            s = c.sample(r)
+            if s is not None:
+                samples.append(s)
+        # what the container holds: the source values, exactly, as float64 (Coq: c14_repr_case)
+        if c.held is not None and isinstance(c.held, np.ndarray):
+            src = [float(t) for t in np.ravel(np.array(c.rows["a"], dtype="f8"))]
+            held = [float(t) for t in np.ravel(c.held)]
+            if all(math.isfinite(t) for t in held):
+                p_, e_, m_ = GRID_FORMAT[DTYPES[c.reps["a"][1]][1]]
+                terms.append("c14_repr_case %d %d %d %s %s" % (p_, e_, m_, fq.qlist(src), fq.qlist(held)))
+                tinfo.append(c)
+    ctx.log("representation cases run: %d; %d container terms for Coq" % (len(cases), len(terms)))
+    codes = ctx.shards("Repr_C14", QHEADER, terms, shard=200)
+    for c, code in zip(tinfo, codes):
+        if code is None:
+            continue
+        if code & 2:
+            ctx.obligation("generator:repr-source-format", False, "a generated value is not of its source format: %s" % c.replay())
+        if code & 5:
+            c.diff.append("container does not hold the source values as float64 values (code %d)" % code)
+            ctx.disagree("c14-repr:held:%s" % c.fn, c.case, {"representation": c.describe(), "code": code, "replay": c.replay()})
+    ctx.extra["repr_cases"] = len(cases)
+    ctx.extra["repr_refused"] = refused[:8]
+    ctx.extra["repr_differing"] = sum(1 for c in cases if c.diff)
+    if refused:
+        ctx.log("representations refused by the implementation (not failures): %d, e.g. %s" % (len(refused), refused[0]["refused"]))
+    ctx.log("representation cases: %d (%d differ from the float64 path), %d accuracy goals on observed rows"
+            % (len(cases), ctx.extra["repr_differing"], len(samples)))
+    return samples
+
+
 def interval_axioms(ctx):
     """record verbatim what Interval adds to the trusted base (Print Assumptions of a lemma proved by `interval`)"""
     path = os.path.join(ctx.workdir, "Axioms_C14.v")
@@ -846,6 +1305,8 @@ def run(ctx):
     probe = mk_distance(p, q, "probe:near-antipodal")
     jobs = gen_samples(ctx)
     samples = [probe] + build_samples(ctx, jobs)
+    ctx.log("%d samples of the value generators" % len(samples))
+    samples += repr_checks(ctx)
     ctx.log("%d samples, %d with goals" % (len(samples), sum(1 for s in samples if s.atoms)))
     verdict = check_goals(ctx, samples, "Goals_C14")
     judge(ctx, samples, verdict)
@@ -860,6 +1321,27 @@ def replay(ctx, body):
     rep = body.get("replay", body)
     fn, inp = rep.get("function"), rep.get("inputs_hex", {})
     h = float.fromhex
+    rc = rep.get("representation_case") or (rep if "representation" in rep else None)
+    if rc:
+        # the recorded call with its inputs in the recorded representation, next to the float64 path
+        unhex = lambda v: [[h(t) for t in r] if isinstance(r, list) else h(r) for r in v]      # noqa: E731
+        slots = sorted(rc["rows_hex"])
+        c = ReprCase(rc["repr_fn"], {k: tuple(rc["representation"][k]) for k in slots},
+                     {k: unhex(rc["rows_hex"][k]) for k in slots}, "replay")
+        if c.fn == "mean":
+            c.reps.setdefault("w", None)
+            c.rows.setdefault("w", None)
+        c.case = ("repr", 0)
+        c.run()
+        ctx.log("representation %s: %s" % (c.describe(), c.refused or c.diff or "identical to the float64 path"))
+        if c.refused:
+            return
+        if c.diff:
+            ctx.disagree("c14-repr:%s" % c.fn, c.case, {"representation": c.describe(), "differs": c.diff})
+        s = c.sample(int(rc.get("row", 0)))
+        if s is not None:
+            judge(ctx, [s], check_goals(ctx, [s], "Replay_C14"))
+        return
     if fn == "AngularCoordinates.to_3d":
         s = mk_to3d(h(inp["ra"]), h(inp["dec"]), "replay")
     elif fn == "AngularDistances.to_3d":
